@@ -263,9 +263,8 @@ func replayScale(tr *Trace) error {
 }
 
 func runScale(t *testing.T, id string) {
-	spec := specByID(id)
 	stats.Property = id
-	stats.Rule = spec.Rule
+	stats.Rule = "scale histories: one tree (numeric, byte-string, collation or compound kind) is grown to 66 000-70 001 entries in a drawn permutation - or to a comb: a spine on which every node is a full node256 - and emptied again in another permutation; return values and Size() are checked at every step, the complete audits (every stored key found, full ordered scans both ways, extremes, TopK/BottomK, Size against a count; for C14 the iteration audits) at entry counts around 2^8 and 2^16, at half size and at the peak; non-trivial = every case (each runs all 2n operations); distinct by (kind, n, permutation parameters)"
 	rapid.Check(t, func(rt *rapid.T) {
 		kn := pick(rt, scaleKinds, "scalekind")
 		n := pick(rt, []int{300, 66000, 66000, 70001}, "scalen")
